@@ -166,6 +166,11 @@ func runLive(j Job) *Result {
 				break
 			}
 			if (i/8)%3 == 1 {
+				if (i/24)%2 == 1 {
+					l.fam = "avs-tasks"
+					w = l.avsTasks()
+					break
+				}
 				l.fam = "unpriced-asset-slash"
 				w = l.unpricedSlash()
 				break
@@ -618,5 +623,30 @@ func (l *liveRun) unpricedSlash() *ops.World {
 		}
 		l.s.Case(fmt.Sprintf("%s|downtime-slash-executed=%v|workload-completed", l.fam, slashed))
 	}
+	return w
+}
+
+// avsTasks: the task lifecycle workload of the avs engine (registry, BLS keys, submissions on and off the window
+// boundaries, opt-outs of signers) judged here only for halts.
+func (l *liveRun) avsTasks() *ops.World {
+	r := l.r
+	n := 3 + r.Intn(3)
+	stakes := make([]int64, n)
+	for k := range stakes {
+		stakes[k] = int64(20 + r.Intn(500))
+	}
+	c, err := sim.NewChain(sim.DefaultConfig(n, stakes))
+	if err != nil {
+		return nil
+	}
+	w := ops.NewWorld(c, r)
+	w.Dt = 20 * time.Second
+	if !w.Start() {
+		return w
+	}
+	a := &avsRun{w: w, r: r, s: mon.NewStats("C20"), hist: l.hist, reg: map[string]bool{}, taskAddrOf: map[string]string{}, nextID: map[string]uint64{}, optedIn: map[string]map[string]bool{}}
+	a.signersLeave = true
+	a.run(false)
+	l.s.Case(l.fam + "|workload-completed")
 	return w
 }
